@@ -30,7 +30,7 @@ EXPLANATION = (
     "ApplicationResult constants; R18c the end-of-run chain tests failed before fixed before triggered "
     "(path enumeration of the chain function); R18d the per-file success status is never dropped on the way to "
     "that chain; R18e every exit taken inside an error reporter passes SYSTEM_ERROR and help-printing exits pass "
-    "COMMAND_LINE_ERROR; R18f (=R19d) the list-files branch consults the discovery error flag. "
+    "COMMAND_LINE_ERROR; R18f (=R19d) the list-files branch consults the discovery error flag; R18g nothing reads the configuration (scheme, plugins, extensions, logging) before all layers are applied; R18h a per-file function that reported an error returns the failure status. "
     "Not decided: argparse's own exits (2 on bad arguments, 0 on --help) are library behaviour; which category "
     "a given run produces at run time."
 )
@@ -442,6 +442,41 @@ def _block_of(func_node: ast.AST, target: ast.AST):
     return None
 
 
+def config_read_after_load(ctx: Context, rule_id: str) -> None:
+    """Nothing reads the configuration before every layer has been applied."""
+    from sa.events import EventOrder, Spec
+
+    prog = ctx.prog
+    rule = ctx.rule(rule_id, "configuration is read only after all layers are applied", 1)
+    init = prog.method("pymarkdown.main.PyMarkdownLint", "__initialize_subsystems")
+    loader = prog.method("pymarkdown.application_configuration_helper.ApplicationConfigurationHelper", "apply_configuration_layers")
+    readers = {
+        prog.method(RCH, "set_initial_state").qualname: "return-code scheme",
+        prog.method("pymarkdown.plugin_manager.plugin_manager.PluginManager", "initialize").qualname: "plugin registration",
+        prog.method("pymarkdown.extension_manager.extension_manager.ExtensionManager", "initialize").qualname: "extension registration",
+        prog.method("pymarkdown.application_logging.ApplicationLogging", "initialize").qualname: "logging",
+    }
+
+    def event_of(func, site):
+        if loader in site.targets:
+            return "L"
+        for target in site.targets:
+            if target.qualname in readers:
+                return "R"
+        if (site.external or "").endswith((".get_boolean_property", ".get_string_property", ".get_integer_property")) and func.cls is not None and func.cls.name == "PyMarkdownLint":
+            return "R"
+        return None
+
+    spec = Spec(0, {(0, "L"): 1, (1, "R"): 1}, accept_normal={0, 1}, accept_raise={0, 1}, names={0: "configuration not loaded yet", 1: "configuration loaded"})
+    order = EventOrder(prog, event_of, raising=None)
+    witness = order.check(init, spec)
+    key = func_key(init) + ": load before read"
+    if witness is None:
+        rule.ok(key, "apply_configuration_layers precedes every reader of the properties")
+    else:
+        rule.fail(key, where(init), f"a setting is read before the configuration layers are applied, so the value given in a configuration file or --set is ignored: {witness['message']}", list(witness["steps"]))  # type: ignore[arg-type]
+
+
 def run(ctx: Context) -> None:
     r18a(ctx)
     r18b(ctx)
@@ -449,6 +484,10 @@ def run(ctx: Context) -> None:
     common.status_not_dropped(ctx, "R18d")
     r18e(ctx)
     common.discovery_flag_consulted(ctx, "R18f")
+    from sa.rules import c15
+
+    c15.reported_means_failed(ctx, "R18h")
+    config_read_after_load(ctx, "R18g")
     if ctx.tier == "thorough":
         from sa.rules import driver_exploration
 
